@@ -99,6 +99,8 @@ func runC16(c *Ctx) {
 		R.Ob("(*dataCloser).Close/rejection path exists", c.P.Pos(f.Pos()), n >= 1, "no return reachable for a rejected message")
 	}
 
+	ruleLMTPLoopComplete(c)
+
 	R.Rule("R-sendmail-envelope", "E4+E2", "Client.SendMail: from -> Mail, every element of to in slice order -> Rcpt, body copied to the data writer, Close's result returned; an error ends the sequence", 6)
 	if f := c.A.Func("(*Client).SendMail"); f != nil {
 		for _, site := range s.Find(f, "call:(*Client).Mail") {
